@@ -198,3 +198,12 @@ func nodeText(fset *token.FileSet, n ast.Node) string {
 	printer.Fprint(&b, fset, n)
 	return b.String()
 }
+
+// outDir is /verif, or a scratch directory when the self-test runs against a copy of the repository
+// (so that seeded runs never overwrite the committed evidence).
+func outDir() string {
+	if cacheTag != "" {
+		return "/tmp/verif-alt"
+	}
+	return verifDir
+}
